@@ -88,6 +88,17 @@ def run_tlc(*a, **kw):
     return res
 
 
+def judge_batched(pid, module, recs, cfg, batch=60000, timeout=2400):
+    """tlc.judge in batches: 16 JVMs each reading a few thousand records keep the memory of a thorough run bounded."""
+    verdicts, st, tr = [], 0, 0
+    for k in range(0, len(recs), batch):
+        v, s1, t1, _ = tlc.judge(pid, module, recs[k:k + batch], cfg, timeout=timeout, tag="judge_%s_b%d" % (module, k // batch))
+        verdicts.extend(v)
+        st += s1
+        tr += t1
+    return verdicts, st, tr
+
+
 def run(rep):
     quick = rep.tier == "quick"
     # 1. model-check the reference's own laws while TLC enumerates the case space
@@ -120,7 +131,7 @@ def run(rep):
     if len(recs) != len(allc):
         raise Machinery("engine returned %d results for %d cases" % (len(recs), len(allc)))
     # 3. judge in TLC
-    verdicts, st, tr, wall = tlc.judge(rep.pid, "C06", recs, JUDGE_CFG, timeout=2400)
+    verdicts, st, tr = judge_batched(rep.pid, "C06", recs, JUDGE_CFG)
     rep.add_judge(len(recs), st, tr)
     rep.evaluations = len(recs)
     got = {v["id"]: v for v in verdicts}
